@@ -6,7 +6,7 @@
 cd "$(dirname "$0")/.."
 V=$(pwd)
 PIN=dcff49b
-declare -A DIR=( [C02]=persistence/subscription/mem [C06-m1]=. [C06-m2]=pkg/packets [C09-m1]=persistence/queue/redis [C09-m2]=persistence/subscription/redis [C10]=persistence/queue/mem [C10-m3]=persistence/queue/redis [C06-m3]=pkg/packets [C06-m4]=pkg/packets [C09-m4]=persistence [C11-m4]=server [C09-m3]=persistence [C11-m3]=server [C13-m2]=topicalias/fifo [C16]=plugin/federation [C17]=plugin/federation [C19]=plugin/auth )
+declare -A DIR=( [C02]=persistence/subscription/mem [C06-m1]=. [C06-m2]=pkg/packets [C09-m1]=persistence/queue/redis [C09-m2]=persistence/subscription/redis [C10]=persistence/queue/mem [C10-m3]=persistence/queue/redis [C06-m3]=pkg/packets [C06-m4]=pkg/packets [C09-m4]=persistence [C11-m4]=server [C02-m5]=persistence/subscription/mem [C06-m5]=pkg/packets [C09-m5]=persistence [C10-m5]=persistence/queue/mem [C09-m3]=persistence [C11-m3]=server [C13-m2]=topicalias/fifo [C16]=plugin/federation [C17]=plugin/federation [C19]=plugin/auth )
 one() {
   id=$1; d=$V/seeded/$id; prop=${id%%-*}
   tgt=${DIR[$id]:-${DIR[$prop]:-server}}
